@@ -181,6 +181,11 @@ type tScreen struct {
 	setClipboard string
 
 	sync.Mutex
+
+	// lifecycle serializes engage and disengage (Init/Resume vs Suspend/Fini),
+	// so that loops are never started while the previous ones are still exiting.
+	// It is always taken before the screen lock above, never while holding it.
+	lifecycle sync.Mutex
 }
 
 func (t *tScreen) Init() error {
@@ -2119,6 +2124,8 @@ func (t *tScreen) Tty() (Tty, bool) {
 // Think of this is as tcell "engaging" the clutch, as it's going to be driving the
 // terminal interface.
 func (t *tScreen) engage() error {
+	t.lifecycle.Lock()
+	defer t.lifecycle.Unlock()
 	t.Lock()
 	defer t.Unlock()
 	if t.tty == nil {
@@ -2182,6 +2189,8 @@ func (t *tScreen) engage() error {
 // can take over the terminal interface.  This restores the TTY mode that was
 // present when the application was first started.
 func (t *tScreen) disengage() {
+	t.lifecycle.Lock()
+	defer t.lifecycle.Unlock()
 	verifPoint("dis-enter")
 
 	t.Lock()
@@ -2203,7 +2212,11 @@ func (t *tScreen) disengage() {
 	t.wg.Wait()
 	verifPoint("dis-joined")
 
-	// shutdown the screen and disable special modes (e.g. mouse and bracketed paste)
+	// shutdown the screen and disable special modes (e.g. mouse and bracketed paste);
+	// the loops are gone, but the application may still be calling the screen,
+	// so this is done under the screen lock
+	t.Lock()
+	defer t.Unlock()
 	ti := t.ti
 	t.cells.Resize(0, 0)
 	t.TPuts(ti.ShowCursor)
